@@ -256,6 +256,13 @@ func (s *slicer) sourcesAt(v ssa.Value, at *ssa.BasicBlock) []srcInfo {
 		case *ssa.Const:
 			add(srcInfo{Kind: "const", Const: x.Value, Mult: mult})
 		case *ssa.Parameter:
+			// a parameter assigned under the case of an option switch (prefix = pattern): the value given for that option
+			if ctx != nil {
+				if g := s.guardOf(ctx); len(g) > 0 {
+					add(srcInfo{Kind: "token", Name: strings.Join(g, "+"), Mult: mult})
+					return
+				}
+			}
 			add(srcInfo{Kind: "param", Name: x.Name(), Mult: mult, Param: x})
 		case *ssa.Phi:
 			for i, e := range x.Edges {
@@ -342,9 +349,15 @@ func (s *slicer) sourcesAt(v ssa.Value, at *ssa.BasicBlock) []srcInfo {
 				}
 				// a module helper that reads the option's value from the scanner (readOptWord(s)):
 				// its result is a token value; the option it belongs to is the case the call sits in
-				if hc, idx, ok := helperResult(x); ok && s.depth < 3 && returnsTokenValue(s, hc.Call.StaticCallee(), idx) {
-					if tokenSrc() {
-						return
+				if hc, idx, ok := helperResult(x); ok && s.depth < 3 {
+					if hm, ok := tokenValueMult(s, hc.Call.StaticCallee(), idx, 0); ok {
+						saved := mult
+						mult *= hm
+						done := tokenSrc()
+						mult = saved
+						if done {
+							return
+						}
 					}
 				}
 				add(srcInfo{Kind: "call", Name: fmt.Sprintf("%s#%d", short(n), x.Index), Mult: mult, At: call})
@@ -372,6 +385,15 @@ func (s *slicer) sourcesAt(v ssa.Value, at *ssa.BasicBlock) []srcInfo {
 						if st, ok := r.(*ssa.Store); ok && st.Addr == a {
 							n++
 							rec(st.Val, mult, depth+1)
+						}
+					}
+					// the variable's address sits in a table of {name, target} entries and is written through the
+					// pointer selected by comparing the names with the option given: the value written that way
+					// is the value given for the option the entry names
+					for _, name := range pointerTableNames(a) {
+						if vals := storesThroughTablePointer(s.fn, a); len(vals) > 0 {
+							n++
+							add(srcInfo{Kind: "token", Name: "str:" + name, Mult: mult, At: vals[0]})
 						}
 					}
 					if n == 0 {
@@ -641,10 +663,28 @@ func readMarkdownTable(file, heading, firstHeader string) ([]string, error) {
 // returnsTokenValue: result #idx of helper g is, on every return, a constant or the Value of a
 // scanner token read inside g.
 func returnsTokenValue(s *slicer, g *ssa.Function, idx int) bool {
+	_, ok := tokenValueMult(s, g, idx, 0)
+	return ok
+}
+
+// tokenValueMult: like returnsTokenValue, also through helpers that call such helpers
+// (readMillisOpt → readIntOpt), with the constant factor applied to the token's value on the way.
+func tokenValueMult(s *slicer, g *ssa.Function, idx int, depth int) (int64, bool) {
+	if g == nil || len(g.Blocks) == 0 || depth > 3 {
+		return 0, false
+	}
 	sub := newSlicer(s.p, g)
 	sub.depth = s.depth + 1
 	nTok := 0
 	ok := true
+	var m int64
+	setM := func(x int64) {
+		if nTok > 0 && m != x {
+			ok = false
+		}
+		m = x
+		nTok++
+	}
 	allInstrs(g, func(in ssa.Instruction) {
 		ret, isRet := in.(*ssa.Return)
 		if !isRet || idx >= len(ret.Results) {
@@ -654,13 +694,34 @@ func returnsTokenValue(s *slicer, g *ssa.Function, idx int) bool {
 			switch {
 			case si.Kind == "const":
 			case si.Kind == "field" && si.Name == "Value":
-				nTok++
+				setM(si.Mult)
+			case si.Kind == "call":
+				call, isCall := si.At.(*ssa.Call)
+				if !isCall {
+					ok = false
+					continue
+				}
+				h := call.Call.StaticCallee()
+				// which result of h? recorded in the name as "#k"
+				k := 0
+				if i := strings.LastIndex(si.Name, "#"); i >= 0 {
+					fmt.Sscanf(si.Name[i+1:], "%d", &k)
+				}
+				im, iok := tokenValueMult(s, h, k, depth+1)
+				if !iok {
+					ok = false
+					continue
+				}
+				setM(si.Mult * im)
 			default:
 				ok = false
 			}
 		}
 	})
-	return ok && nTok > 0
+	if !ok || nTok == 0 {
+		return 0, false
+	}
+	return m, true
 }
 
 // storesThroughHelperPointer: call passes the struct variable al (by address) to a module helper
@@ -743,4 +804,122 @@ func (s *slicer) fieldOfValue(v ssa.Value, field int) []srcInfo {
 		}
 	}
 	return s.structFieldSources(v, field)
+}
+
+// pointerTableNames: the address of a is stored into field P of element i of a local array of structs
+// whose other field of element i holds a string constant; returns those constants.
+func pointerTableNames(a *ssa.Alloc) []string {
+	var out []string
+	for _, r := range *a.Referrers() {
+		st, ok := r.(*ssa.Store)
+		if !ok || st.Val != ssa.Value(a) {
+			continue
+		}
+		fa, ok := st.Addr.(*ssa.FieldAddr)
+		if !ok {
+			continue
+		}
+		ia, ok := fa.X.(*ssa.IndexAddr)
+		if !ok {
+			continue
+		}
+		idx, ok := constInt(ia.Index)
+		if !ok {
+			continue
+		}
+		arr := ia.X
+		for _, ar := range *arr.Referrers() {
+			ia2, ok := ar.(*ssa.IndexAddr)
+			if !ok {
+				continue
+			}
+			if k, ok := constInt(ia2.Index); !ok || k != idx {
+				continue
+			}
+			for _, r2 := range *ia2.Referrers() {
+				fa2, ok := r2.(*ssa.FieldAddr)
+				if !ok || fa2.Field == fa.Field {
+					continue
+				}
+				for _, r3 := range *fa2.Referrers() {
+					if st2, ok := r3.(*ssa.Store); ok && st2.Addr == ssa.Value(fa2) {
+						if str, ok := constString(st2.Val); ok {
+							out = append(out, str)
+						}
+					}
+				}
+			}
+		}
+	}
+	return out
+}
+
+// storesThroughTablePointer: the stores `*p = v` in fn whose pointer p is read from a field of a table
+// element (a loop variable holding a copy of the element, or the element itself), where the element is
+// selected by an equality test on another field of the same element. Returns the store instructions.
+func storesThroughTablePointer(fn *ssa.Function, a *ssa.Alloc) []ssa.Instruction {
+	var out []ssa.Instruction
+	fromTableField := func(v ssa.Value) bool {
+		seen := map[ssa.Value]bool{}
+		var walk func(v ssa.Value, d int) bool
+		walk = func(v ssa.Value, d int) bool {
+			if d > 8 || seen[v] {
+				return false
+			}
+			seen[v] = true
+			switch x := v.(type) {
+			case *ssa.Phi:
+				for _, e := range x.Edges {
+					if c, ok := e.(*ssa.Const); ok && c.IsNil() {
+						continue
+					}
+					if walk(e, d+1) {
+						return true
+					}
+				}
+			case *ssa.UnOp:
+				if fa, ok := x.X.(*ssa.FieldAddr); ok && x.Op == token.MUL {
+					if pt, ok := fa.X.Type().Underlying().(*types.Pointer); ok {
+						if _, isStruct := pt.Elem().Underlying().(*types.Struct); isStruct {
+							return true
+						}
+					}
+				}
+				if al, ok := x.X.(*ssa.Alloc); ok {
+					for _, r := range *al.Referrers() {
+						if st, ok := r.(*ssa.Store); ok && st.Addr == ssa.Value(al) && walk(st.Val, d+1) {
+							return true
+						}
+					}
+				}
+			case *ssa.Field:
+				return true
+			}
+			return false
+		}
+		return walk(v, 0)
+	}
+	allInstrs(fn, func(in ssa.Instruction) {
+		st, ok := in.(*ssa.Store)
+		if !ok {
+			return
+		}
+		if _, isAlloc := st.Addr.(*ssa.Alloc); isAlloc {
+			return
+		}
+		if _, isFA := st.Addr.(*ssa.FieldAddr); isFA {
+			return
+		}
+		if _, isIA := st.Addr.(*ssa.IndexAddr); isIA {
+			return
+		}
+		pt, ok := st.Addr.Type().Underlying().(*types.Pointer)
+		if !ok || !types.Identical(pt.Elem(), a.Type().Underlying().(*types.Pointer).Elem()) {
+			return
+		}
+		if fromTableField(st.Addr) {
+			out = append(out, in)
+		}
+	})
+	return out
 }
